@@ -92,6 +92,13 @@ def k2_contexts(tier):
             out.append(_c("A DF17 TC%d Q0 U%d" % (tc, U), 28, q0, U=U, CA=0, caps=NO_CAPS, tags=("A", "alt-q0", "df17", "tc%d" % tc)))
             z = field_bits(dict(base), 41, 52, 0)
             out.append(_c("A DF17 TC%d ZERO U%d" % (tc, U), 28, z, U=U, CA=0, caps=NO_CAPS, tags=("A", "alt-zero", "df17", "tc%d" % tc)))
+    # ---- P: airborne / surface position with the CPR format bit fixed
+    for tc in (11, 6):
+        for F in (0, 1):
+            for U in (False, True):
+                fx = field_bits(df_fixed(17), 33, 37, tc)
+                fx[54] = F
+                out.append(_c("P TC%d F%d U%d" % (tc, F, U), 28, fx, U=U, CA=0, caps=NO_CAPS, tags=("P", "tc%d" % tc, "F%d" % F)))
     # ---- V: TC19 velocity: zero fields and signs
     for stv in (1, 2):
         for U in (False, True):
